@@ -55,8 +55,8 @@ class TKEY(dns.rdata.Rdata):
         self.expiration = self._as_uint32(expiration)
         self.mode = self._as_uint16(mode)
         self.error = self._as_uint16(error)
-        self.key = self._as_bytes(key)
-        self.other = self._as_bytes(other)
+        self.key = self._as_bytes(key, False, 65535)
+        self.other = self._as_bytes(other, False, 65535)
 
     def to_styled_text(self, style: dns.rdata.RdataStyle) -> str:
         algorithm = self.algorithm.to_styled_text(style)
